@@ -16,7 +16,7 @@ def run(ctx):
     ctx.build()
     total = {"states": 0, "transitions": 0, "evaluations": 0, "distinct": 0, "classes": {}, "samples": [], "tlc": {}}
     last64 = None
-    for arch in ("amd64", "x86", "arm-ios", "arm-linux", "arm64", "arm64old", "mips32", "mips64"):
+    for arch in ("amd64", "amd64-windows", "x86", "arm-ios", "arm-linux", "arm64", "arm64old", "mips32", "mips64"):
         mc, rep, trace = run_model_arch(ctx, arch, None, True, reuse=last64 if arch == "arm64old" else None)
         if arch == "arm64":
             last64 = mc
@@ -37,7 +37,7 @@ def run(ctx):
         "traces_validated_against_impl": total["evaluations"],
         "samples": total["samples"][:5], "exhaustive": True,
         "evaluations": total["evaluations"], "distinct_nontrivial": total["distinct"],
-        "rule": "every buildable chain of 1..MaxDepth calls laid out on an NW-word stack, per architecture: amd64 {frame pointer, STACK CFI, scan} x filler; "
+        "rule": "every buildable chain of 1..MaxDepth calls laid out on an NW-word stack, per architecture: amd64 {frame pointer, STACK CFI, scan} x filler, on Linux and on Windows (frame register pointing 16 bytes below the record); "
                 "x86 {ebp frame with 8 bytes of parameters, F1 with one of STACK WIN frame data / FPO / FPO with base pointer / STACK CFI, scan} so that grand-callee "
                 "parameter sizes 0 / 8 / 12 meet every record kind; arm (iOS: with frame records; Linux: without) and arm64 / arm64-old {frame record, CFI saving fp, "
                 "CFI defining only .cfa/.ra, scan}; mips o32 and 64-bit {CFI saving fp, CFI defining only .cfa/.ra, scan with a code pointer in the argument home slots}; non-trivial = distinct built stack with at least one caller",
